@@ -100,6 +100,16 @@ def run_tree(rnd, res, steps, tseed=None):
     def rand_ns(bias_default=0.5):
         c = rnd.choice(list(owners))
         A = owners[c]
+        r = rnd.random()
+        if r < 0.15:
+            # the very object that is the class's shared default namespace
+            holder = rnd.choice([k for k in classes if c in k.__mro__])
+            return RenderArgs(holder)[c]
+        if r < 0.3 and pool:
+            # a namespace object that already lives inside another set
+            o, _ = rnd.choice(pool)
+            if o._namespaces:
+                return rnd.choice(list(o._namespaces.values()))
         if rnd.random() < bias_default:
             return A()  # all defaults: exercises the interning shortcuts
         return A(**{f: rnd.choice([v, v, 7, 9]) for f, v in A.get_fields().items()})
